@@ -74,6 +74,40 @@ fn apply_call(e: &mut Encoder<ChunkSink>, m: &str, arg: &str) -> bool {
     }
 }
 
+/// IC <z>: Int::try_from(i128) and every conversion out of / into Int
+pub fn ic_handler(a: &[&str]) -> String {
+    let z: i128 = a[0].parse().unwrap();
+    fn o<T: ToString, E>(r: Result<T, E>) -> String { r.map(|v| v.to_string()).unwrap_or_else(|_| "none".into()) }
+    let mut out = Vec::new();
+    match Int::try_from(z) {
+        Err(_) => out.push("int=none".to_string()),
+        Ok(i) => {
+            out.push(format!("int={}", i128::from(i)));
+            out.push(format!("u8={}", o(u8::try_from(i)))); out.push(format!("u16={}", o(u16::try_from(i))));
+            out.push(format!("u32={}", o(u32::try_from(i)))); out.push(format!("u64={}", o(u64::try_from(i))));
+            out.push(format!("u128={}", o(u128::try_from(i))));
+            out.push(format!("i8={}", o(i8::try_from(i)))); out.push(format!("i16={}", o(i16::try_from(i))));
+            out.push(format!("i32={}", o(i32::try_from(i)))); out.push(format!("i64={}", o(i64::try_from(i))));
+        }
+    }
+    if let Ok(u) = u128::try_from(z) { out.push(format!("fromu128={}", o(Int::try_from(u).map(i128::from)))) }
+    if let Ok(v) = i64::try_from(z) { out.push(format!("fromi64={}", i128::from(Int::from(v)))) }
+    if let Ok(v) = u64::try_from(z) { out.push(format!("fromu64={}", i128::from(Int::from(v)))) }
+    if let Ok(v) = i8::try_from(z) { out.push(format!("fromi8={}", i128::from(Int::from(v)))) }
+    let all = out.join(";");
+    // oracle: each conversion is the identity on values when it succeeds and fails exactly outside the range
+    let mut verdict = Ok(());
+    let in_int = z >= -(1i128 << 64) && z < (1i128 << 64);
+    if in_int != !all.starts_with("int=none") { verdict = Err("Int::try_from(i128) range".into()) }
+    for (name, lo, hi) in [("u8", 0i128, 255i128), ("u16", 0, 65535), ("u32", 0, (1 << 32) - 1), ("u64", 0, (1 << 64) - 1), ("u128", 0, i128::MAX),
+                           ("i8", -128, 127), ("i16", -32768, 32767), ("i32", -(1 << 31), (1 << 31) - 1), ("i64", -(1 << 63), (1 << 63) - 1)] {
+        if !in_int { break }
+        let want = if z >= lo && z <= hi { format!("{}={}", name, z) } else { format!("{}=none", name) };
+        if !all.split(';').any(|f| f == want) { verdict = Err(format!("conversion to {}: expected {}", name, want)) }
+    }
+    with_oracle(all, verdict)
+}
+
 /// ES <call;call;…> [=<expected hex>]: a sequence of Encoder calls on one encoder
 pub fn es_handler(a: &[&str]) -> String {
     let mut e = Encoder::new(ChunkSink::default());
